@@ -12,6 +12,9 @@ spec -> code: PortageConf_Sim (TLC -simulate) draws sessions: a tree, then one c
               load the tree is rendered, directory listings are handed to the code in the order the
               tree gives (os.listdir wrapped), and the real PortageConfig(...) is called.
 code -> spec: seeded random sessions (more names, more fragments) executed the same way.
+Beside every load the session's make.conf is also read by a direct PortageConfig.load_make_conf call
+(flags allow_sourcing / required / allow_recurse / incrementals drawn with the arguments) into a
+seeded dictionary: result or exception class, and the dictionary after a failure, are judged too.
 Every load is recorded (exception class or every generated section with its settings, repo order,
 FEATURES, the process-wide ProfileNode._repo_map, the repos.conf warnings) and judged by
 PortageConf_Trace, which recomputes the translation with the operators of PortageConf.tla.
@@ -229,16 +232,7 @@ class World:
         m = self.profiles.ProfileNode._repo_map
         return sorted([k, v.replace(self.root, "")] for k, v in (m or {}).items())
 
-    def load(self, tree, args):
-        render(self.root, tree, self.listing)
-        kw = {}
-        if args["override"] != "-":
-            kw["profile_override"] = os.path.join(self.root, PT_PATH[args["override"]])
-        if args["root"] != "-":
-            kw["root"] = self.root + args["root"]
-        if args["buildpkg"]:
-            kw["buildpkg"] = True
-        real_listdir = os.listdir
+    def listdir_hook(self, real_listdir):
         listing = self.listing
 
         def listdir(path="."):
@@ -252,6 +246,19 @@ class World:
                 res.sort(key=lambda n: pos.get(n, len(pos)))
             return res
 
+        return listdir
+
+    def load(self, tree, args):
+        render(self.root, tree, self.listing)
+        kw = {}
+        if args["override"] != "-":
+            kw["profile_override"] = os.path.join(self.root, PT_PATH[args["override"]])
+        if args["root"] != "-":
+            kw["root"] = self.root + args["root"]
+        if args["buildpkg"]:
+            kw["buildpkg"] = True
+        real_listdir = os.listdir
+        listdir = self.listdir_hook(real_listdir)
         cap = _Capture()
         lg = logging.getLogger("pkgcore")
         old_level = lg.level
@@ -291,6 +298,27 @@ class World:
                         seen.add((kind, mm.group(1)))
                         obs["warn"].append([kind, mm.group(1)])
         return obs
+
+
+ENV0 = {"USE": ["u0"], "BASE": ["b0"], "FEATURES": ["f0"], "X": ["x0"]}
+
+
+def direct_make_conf(world, tree, flags):
+    """PortageConfig.load_make_conf called the way domain.get_package_domain and tests call it."""
+    d = {k: " ".join(v) for k, v in ENV0.items()}
+    err = ""
+    real_listdir = os.listdir
+    os.listdir = world.listdir_hook(real_listdir)
+    try:
+        try:
+            world.pc.PortageConfig.load_make_conf(d, os.path.join(world.root, "etc/portage/make.conf"), allow_sourcing=flags["src"],
+                                                  required=flags["required"], allow_recurse=flags["recurse"],
+                                                  incrementals=flags["incr"])
+        except Exception as e:   # recorded, judged by the trace spec
+            err = type(e).__name__
+    finally:
+        os.listdir = real_listdir
+    return dict(err=err, env=[dict(k=k, v=str(v).replace(world.root, "").split()) for k, v in sorted(d.items())])
 
 
 def globals_words():
@@ -335,6 +363,9 @@ def run_session(world, tid, steps, events):
         obs = world.load(tree, st["args"])
         events.append(dict(tid=tid, i=i, ev="load", comp=st.get("comp", "-"), tree=tree, args=st["args"],
                            rmap0=rmap0, obs=obs))
+        flags = st["args"]["mk"]
+        events.append(dict(tid=tid, i=1000 + i, ev="mkconf", comp=st.get("comp", "-"), env0=ENV0, mc=tree["mc"], inc=tree["inc"],
+                           flags=flags, obs=direct_make_conf(world, tree, flags)))
 
 
 # --------------------------------------------------------------------------- random sessions (code -> spec)
@@ -469,7 +500,8 @@ def gen_prof(r):
 
 def gen_args(r):
     return dict(override=r.choice(["-"] * 20 + ["inrepo"] * 3 + ["deep"] * 2 + ["nested"] * 3 + ["outside", "missing"]),
-                root=r.choice(["-", "-", "/altroot"]), buildpkg=r.random() < 0.2)
+                root=r.choice(["-", "-", "/altroot"]), buildpkg=r.random() < 0.2,
+                mk=dict(src=r.random() < 0.7, required=r.random() < 0.5, recurse=r.random() < 0.75, incr=r.random() < 0.5))
 
 
 def gen_session(r, n):
@@ -561,8 +593,13 @@ def judge(ck, gl, batches):
             e = by[(v["tid"], v["i"])]
             if v["clause"] == "OutsideDomain":
                 raise tlc.MachineryError(f"generator left the specification's domain: tid={e['tid']} i={e['i']} tree={e['tree']}")
-            hist = [dict(comp=x["comp"], tree=x["tree"], args=x["args"]) for x in evs if x["tid"] == e["tid"] and x["i"] <= e["i"]]
+            hist = [dict(comp=x["comp"], tree=x["tree"], args=x["args"]) for x in evs
+                    if x["tid"] == e["tid"] and x["ev"] == "load" and x["i"] <= e["i"] % 1000]
             o = e["obs"]
+            if e["ev"] == "mkconf":
+                ck.violation(v["clause"], dict(call=e["i"] % 1000, op="load_make_conf", comp=e["comp"], err=o["err"], flags=e["flags"],
+                                               mc_kind=e["mc"]["kind"], history=hist, observed=dict(env=o["env"])))
+                continue
             ck.violation(v["clause"], dict(call=e["i"], comp=e["comp"], err=o["err"], rc_kind=e["tree"]["rc"]["kind"],
                                            mc_kind=e["tree"]["mc"]["kind"], args=e["args"], history=hist,
                                            observed=dict(order=o["order"], features=o["features"], rmap=o["rmap"], warn=o["warn"],
@@ -629,6 +666,7 @@ def run(ck):
         run_session(w, tid, beh, events)
     ck.sample(dict(direction="spec->code", comp=[s["comp"] for s in behs[0]], first_tree=behs[0][0]["tree"],
                    observed_order=events[0]["obs"]["order"], observed_err=events[0]["obs"]["err"]))
+    ck.sample(dict(direction="spec->code", op="load_make_conf", flags=events[1]["flags"], mc=events[1]["mc"], observed=events[1]["obs"]))
     sim_events = events
 
     # ---- code -> spec
@@ -645,9 +683,9 @@ def run(ck):
     outcomes = {}
     for e in sim_events + rnd_events:
         ck.count()
-        key = e["obs"]["err"] or "ok"
+        key = ("mkconf:" if e["ev"] == "mkconf" else "") + (e["obs"]["err"] or "ok")
         outcomes[key] = outcomes.get(key, 0) + 1
-        if nontrivial(e):
+        if e["ev"] == "load" and nontrivial(e):
             ck.nontriv(repr((e["tree"], e["args"])))
     ck.extra["outcomes"] = outcomes
     chunk = ck.pick(250, 450)
@@ -657,7 +695,7 @@ def run(ck):
         start = 0
         while start < len(evs):
             end = min(len(evs), start + chunk)
-            while end < len(evs) and evs[end]["i"] != 1:
+            while end < len(evs) and not (evs[end]["ev"] == "load" and evs[end]["i"] == 1):
                 end += 1
             batches.append((f"Trace:{lab}-{len(batches)}", evs[start:end]))
             start = end
